@@ -427,5 +427,22 @@ package generator
 //@   ensures [C11] anyof-agreeing-branches: len(t.Type) == 0 && len(t.AnyOf) >= 1 ==> result0 == (branches_agree(t.AnyOf) ? first_branch_type(t.AnyOf) : "null")
 //@   ensures [C11] allof-agreeing-branches: len(t.Type) == 0 && len(t.AnyOf) == 0 && len(t.AllOf) >= 1 ==> result0 == (branches_agree(t.AllOf) ? first_branch_type(t.AllOf) : "null")
 
-//@ func (*TypeList).Equals@in-generator
-//@   props C11
+
+// ---- parsing a $ref (extractRefNames) ------------------------------------------
+// "F#/$defs/N" and "F#/definitions/N" (the prefix in any letter case) give
+// (N, F); a ref without '#' is a file; any other fragment is an error. Never
+// panics, whatever the text.
+//@ spec ref_scope(t) = substr(t.Ref, index_rune(t.Ref, "#") + 1, len(t.Ref))
+//@ spec defs_prefix(t) = has_prefix(lower(ref_scope(t)), "/$defs/")
+//@ spec legacy_prefix(t) = has_prefix(lower(ref_scope(t)), "/definitions/")
+//@ func (*schemaGenerator).extractRefNames
+//@   props C10 C13 C18
+//@   option shape-zero t.
+//@   shape g = sgen()
+//@   shape t = new
+//@   assigns nothing
+//@   ensures [C10] file-only: index_rune(t.Ref, "#") == 0 - 1 ==> result2 == nil && result0 == "" && result1 == t.Ref
+//@   ensures [C10,C13] error-iff-no-known-prefix: index_rune(t.Ref, "#") != 0 - 1 ==> (result2 != nil <==> !defs_prefix(t) && !legacy_prefix(t))
+//@   ensures [C10,C13] file-part: index_rune(t.Ref, "#") != 0 - 1 && result2 == nil ==> result1 == substr(t.Ref, 0, index_rune(t.Ref, "#"))
+//@   ensures [C10,C13] current-spelling: index_rune(t.Ref, "#") != 0 - 1 && defs_prefix(t) ==> result0 == substr(ref_scope(t), 7, len(ref_scope(t)))
+//@   ensures [C10,C13] legacy-spelling: index_rune(t.Ref, "#") != 0 - 1 && !defs_prefix(t) && legacy_prefix(t) ==> result0 == substr(ref_scope(t), 13, len(ref_scope(t)))
